@@ -190,7 +190,9 @@ def invRun (rows : List (Option Nat × Option Nat × Option Nat × Option Nat ×
     | .error _ => false
   "inv=" ++ boolStr (checkInv parent op1 op2) ++ " links=" ++ boolStr li
 
-def modeFixed (m : String) : Bool := m == "sf"
+/-- which repairs the working tree already has (probed by the check with the witnesses): "cur", "sf", "mf", "sf+mf" -/
+def modeFixed (m : String) : Bool := (m.splitOn "+").contains "sf"
+def memberFixed (m : String) : Bool := (m.splitOn "+").contains "mf"
 
 def step (line : String) : String :=
   match fields line with
@@ -216,24 +218,38 @@ def step (line : String) : String :=
   | ["refs", _, f, h, m] =>
     match fromHex f, fromHex h with
     | some f, some t =>
-      match importDump f t (modeFixed m) with
+      match importDump f t (modeFixed m) (memberFixed m) with
       | .ok im => refsOut im
       | .error e => errStr e
     | _, _ => "bad-op"
   | ["dump", _, f, h, m] =>
     match fromHex f, fromHex h with
     | some f, some t =>
-      match importDump f t (modeFixed m) with
+      match importDump f t (modeFixed m) (memberFixed m) with
       | .ok im => dumpOut im
       | .error e => errStr e
     | _, _ => "bad-op"
-  | ["events", _, f, h, m] =>      -- model-only: the declaration-map events and the setter calls of the import
+  | ["events", _, f, h, m] =>      -- model-only: the setter calls and the declaration-map events of the import, with the theorem hypotheses
     match fromHex f, fromHex h with
     | some f, some t =>
-      match importDump f t (modeFixed m) with
-      | .ok im => "ok " ++ toString im.ops.length ++ " " ++ boolStr (im.ops.all AstStore.Op.viaOperands) ++ String.join (im.events.map fun e => " " ++ evStr e)
+      match importDump f t (modeFixed m) (memberFixed m) with
+      | .ok im =>
+        let evs := im.events
+        let nref := (evs.filter fun e => match e with | .ref _ _ => true | _ => false).length
+        -- uses that precede the declaration of their address
+        let early := (evs.zipIdx.filter fun (e, i) => match e with
+          | .ref a _ => (declPairs (evs.take i)).all (fun kv => kv.1 != a) && (declPairs evs).any (fun kv => kv.1 == a)
+          | _ => false).length
+        "ok ops=" ++ toString im.ops.length ++ " via=" ++ boolStr (im.ops.all AstStore.Op.viaOperands) ++
+          " u=" ++ boolStr (decide (addrsUnique evs)) ++ " f=" ++ boolStr (decide (toksFresh evs)) ++ " o=" ++ boolStr (decide (objsFresh evs)) ++
+          " r=" ++ boolStr (evs.all (fun e => !isReplace e)) ++ " events=" ++ toString evs.length ++ " refs=" ++ toString nref ++
+          " early=" ++ toString early
       | .error e => errStr e
     | _, _ => "bad-op"
+  | ["cover", h] =>               -- model-only: does the line belong to the class `split_join` speaks about
+    match fromHex h with
+    | some s => boolStr (lineCovered s)
+    | none => "bad-op"
   | _ => "bad-op"
 
 end Driver.C35
